@@ -126,8 +126,10 @@ def _run(prog, chk):
     TMO = K("KSI_NETWORK_RECIEVE_TIMEOUT")
     rows = [(WAIT, 0, 0), (WAIT, 10, 11), (WAIT, 10, 10), (WAIT, 10, 3), (ERRS, 10, 0), (RECV, 10, 0), (PUSH, 10, 0), (DISP, 10, 0), (K("KSI_ASYNC_STATE_UNDEFINED"), 10, 0)]
     for state, timeout, elapsed in rows:
-        ov = {"difftime": lambda I, p, n, a, elapsed=elapsed: elapsed, "time": lambda I, p, n, a: 1000}
-        inputs = {cp: Ptr("cl"), hp: Ptr("H"), "H->state": state, "H->sndTime": 900, "cl->options[%d]" % RCVT: timeout, "cl->pending": 4, "cl->received": 2}
+        # the receive timeout runs from the moment the request was sent (sndTime), not from its submission (reqTime, 40 s earlier here)
+        ov = {"difftime": lambda I, p, n, a: (a[0] - a[1]) if isinstance(a[0], int) and isinstance(a[1], int) else TOP, "time": lambda I, p, n, a: 1000}
+        inputs = {cp: Ptr("cl"), hp: Ptr("H"), "H->state": state, "H->sndTime": 1000 - elapsed, "H->reqTime": 1000 - elapsed - 40, "H->rcvTime": 0,
+                  "cl->options[%d]" % RCVT: timeout, "cl->pending": 4, "cl->received": 2}
         I = Interp(ff, inputs=inputs, call_model=succeed_model(prog, ov), on_unknown="stop", prog=prog)
         paths = I.run()
         if len(paths) != 1 or paths[0].undetermined:
